@@ -454,6 +454,11 @@ theorem compile_balanced (p : SProg V) (t : Nat) (σ : List (Nat × FSt)) (evs :
     · intro f' c' h'; simp only [lookupF] at h'; split at h'
       · simp at h'
       · exact ha.idle f' c' h'
+  | parts f =>
+    simp only [compile] at hc
+    split at hc <;> simp at hc
+    obtain ⟨rfl, rfl⟩ := hc
+    exact ⟨s, g, by simp [run], rfl, ha⟩
 theorem compileL_balanced (ps : List (SProg V)) (t : Nat) (σ : List (Nat × FSt)) (evs : List (Ev V))
     (σ' : List (Nat × FSt)) (hc : compileL t σ ps = some (evs, σ')) : Balanced σ evs σ' := by
   intro s g ha hi
